@@ -127,3 +127,41 @@ func VerifC03History() {
 	}
 	vReach("end")
 }
+
+// pruning of empty index nodes (after an unrelated unsubscribe or a cleared retained message) must not
+// cost a subscriber its deliveries
+func VerifC03Pruning() {
+	s, _ := vNewServer(nil)
+	cA, _ := vNewClient(s, "A", 5)
+	cB, connB := vNewClient(s, "B", 5)
+	kinds := []string{"a/b", "$share/g/a/b", "a/#", "a/+"}
+	f := kinds[vChoose(4)]
+	_ = s.processPacket(cB, packets.Packet{ProtocolVersion: 5, FixedHeader: packets.FixedHeader{Type: packets.Subscribe, Qos: 1}, PacketID: 2, Filters: packets.Subscriptions{{Filter: f, Qos: 0}}})
+	// a neighbour operation that makes the index prune nodes
+	near := []string{"a/b/c", "a/b", "a", "a/c"}
+	nf := near[vChoose(4)]
+	switch vChoose(3) {
+	case 0: // another client subscribes and unsubscribes nearby
+		_ = s.processPacket(cA, packets.Packet{ProtocolVersion: 5, FixedHeader: packets.FixedHeader{Type: packets.Subscribe, Qos: 1}, PacketID: 3, Filters: packets.Subscriptions{{Filter: nf, Qos: 0}}})
+		_ = s.processPacket(cA, packets.Packet{ProtocolVersion: 5, FixedHeader: packets.FixedHeader{Type: packets.Unsubscribe, Qos: 1}, PacketID: 4, Filters: packets.Subscriptions{{Filter: nf}}})
+	case 1: // a retained message nearby is set and cleared
+		_ = s.processPacket(cA, packets.Packet{ProtocolVersion: 5, FixedHeader: packets.FixedHeader{Type: packets.Publish, Retain: true}, TopicName: nf, Payload: []byte{5}})
+		vFlush(cB)
+		_ = s.processPacket(cA, packets.Packet{ProtocolVersion: 5, FixedHeader: packets.FixedHeader{Type: packets.Publish, Retain: true}, TopicName: nf})
+	case 2: // a client that holds no such subscription unsubscribes from B's own filter
+		_ = s.processPacket(cA, packets.Packet{ProtocolVersion: 5, FixedHeader: packets.FixedHeader{Type: packets.Unsubscribe, Qos: 1}, PacketID: 4, Filters: packets.Subscriptions{{Filter: f}}})
+	}
+	vFlush(cB)
+	before := len(vParseWire(vConnWritten(connB), 5).Pkts)
+	_ = s.processPacket(cA, packets.Packet{ProtocolVersion: 5, FixedHeader: packets.FixedHeader{Type: packets.Publish}, TopicName: "a/b", Payload: []byte{9}})
+	vFlush(cB)
+	w := vParseWire(vConnWritten(connB), 5)
+	got := 0
+	for _, p := range w.Pkts[before:] {
+		if p.Type == packets.Publish && len(p.Payload) == 1 && p.Payload[0] == 9 {
+			got++
+		}
+	}
+	vAssert("subscriber-still-receives-after-index-pruning", got == 1)
+	vReach("end")
+}
